@@ -6,7 +6,7 @@ use crate::rng::Rng;
 use crate::term::*;
 
 /// (source text, expected message, expected error code, expected first line of the trace)
-pub const SOURCES: [(&str, &str, &str, &str); 20] = [
+pub const SOURCES: [(&str, &str, &str, &str); 24] = [
     ("error boom", "boom", "NONE", "boom"),
     ("error {two words}", "two words", "NONE", "two words"),
     ("throw MYCODE thrown", "thrown", "MYCODE", "thrown"),
@@ -27,9 +27,13 @@ pub const SOURCES: [(&str, &str, &str, &str); 20] = [
     ("throw \"APP  TIMEOUT\" tmsg", "tmsg", "APP  TIMEOUT", "tmsg"),
     ("throw {{ARITH} {DIVZERO} \"two words\"} amsg", "amsg", "{ARITH} {DIVZERO} \"two words\"", "amsg"),
     ("throw \"a \\{b\" nmsg", "nmsg", "a {b", "nmsg"),
+    ("error {}", "", "NONE", ""),
+    ("throw EMPTYMSG {}", "", "EMPTYMSG", ""),
+    ("rceb", "", "NONE", ""),
+    ("error \"\\nsecond\"", "\nsecond", "NONE", ""),
 ];
 
-pub const PRELUDE: &str = "proc pa2 {a b} {}; set nonint abc; proc rce {} {return -code error rmsg}; proc rcei {} {return -code error -errorcode ECODE -errorinfo {given info} imsg}; proc rcec {} {return -code error -errorcode ONLYCODE cmsg}; proc rceo {} {return -errorcode OCODE -code error omsg}";
+pub const PRELUDE: &str = "proc pa2 {a b} {}; set nonint abc; proc rce {} {return -code error rmsg}; proc rcei {} {return -code error -errorcode ECODE -errorinfo {given info} imsg}; proc rcec {} {return -code error -errorcode ONLYCODE cmsg}; proc rceo {} {return -errorcode OCODE -code error omsg}; proc rceb {} {return -code error}";
 
 const FRAMES: [&str; 5] = ["proc", "if", "foreach", "while", "rproc"];
 
@@ -85,7 +89,7 @@ pub fn gen(tier: &str, seed: u64) -> Gen {
             }
         }
     }
-    (cases, vec![(format!("20 error sources x every stack of proc/if/foreach/while/self-removing-proc frames of depth<={} x 6 observation variants (host, catch, rethrow x3, quiet)", maxdepth), n, thorough)])
+    (cases, vec![(format!("24 error sources (incl. empty messages) x every stack of proc/if/foreach/while/self-removing-proc frames of depth<={} x 6 observation variants (host, catch, rethrow x3, quiet)", maxdepth), n, thorough)])
 }
 
 fn host_obs(interp: &mut molt::Interp, script: &str) -> Term {
